@@ -133,7 +133,7 @@ def run_engine(ctx, prop, props_file, prefixes, seed_offset, what):
                       found_input=False)
         return
 
-    n = 84 if ctx.quick() else 640   # the first ~24 are the scripted scenarios
+    n = 96 if ctx.quick() else 652   # the first ~40 are the scripted scenarios
     steps = 14 if ctx.quick() else 18
     hs = run_harness(ctx, n, steps, ctx.seed * 100 + seed_offset)
     if hs is None:
